@@ -141,7 +141,7 @@ PERSIST_HARNESSES = [
        src="persistence.rs", functions=FPS, bounds="write cut after 10 bytes; set_len or seek of the rollback fails (symbolic choice)", assumptions=PA3, timeout=1500, replay="solver-only", tier="thorough"),
     KH("O3.4/batch_fsync", "c03_o4_batch_fsync_fails", "append_batch_internal_with_rollback: frames written, fsync fails => Err and no frame of the batch stays in the log (a complete frame is on disk until the rollback truncates it)",
        src="persistence.rs", functions=FPS + [("persistence.rs", "append_batch_internal_with_rollback"), ("persistence.rs", "append_batch_internal")],
-       bounds="one good frame; a one-entry batch whose fsync fails", assumptions=PA3, timeout=2400, replay="solver-only", tier="thorough"),
+       bounds="one good frame; a one-entry batch whose fsync fails", assumptions=PA3, timeout=1500, replay="solver-only"),
     KH("O3.4/batch_short", "c03_o4_batch_short_write", "append_batch_internal_with_rollback: the batch write is cut after 7 bytes => Err and full restoration",
        src="persistence.rs", functions=FPS + [("persistence.rs", "append_batch_internal_with_rollback"), ("persistence.rs", "append_batch_internal")],
        bounds="one good frame; a one-entry batch cut after 7 bytes", assumptions=PA3, timeout=2400, replay="solver-only", tier="thorough"),
@@ -154,5 +154,5 @@ def run(tier, seed, notes):
     obls = run_mir_obligations("C03", tier, MOS, notes)
     obls += run_kani_group("C03", tier, "lib", MODS, HARNESSES, jobs=6, notes=notes)
     obls += run_kani_group("C03", tier, "lib", {"persistence.rs": "persistence_proofs.rs"}, PERSIST_HARNESSES, support=("verif_fs",), elide_tracing=("persistence.rs",),
-                           prepare=prepare_persistence_overlay, jobs=2, notes=notes)
+                           prepare=prepare_persistence_overlay, jobs=4, notes=notes)
     return obls
